@@ -55,6 +55,7 @@ func (e *Env) Reimport() bool {
 	B := lab.Attach(appB, dbB, ob, appB.LastBlockHeight(), A.Time)
 	e.L = B
 	e.Last = B.Observe(B.QueryCtx())
+	e.LastQ = nil
 	e.C.Count("reimports", 1)
 	e.C.Distinct("history-continued-on-imported-chain")
 	e.tracef("h=%d RE-IMPORT: the history continues on a fresh chain initialised from the export", B.Height)
